@@ -28,13 +28,35 @@ def showHeaders (h : Headers) : String :=
 def showKind : Kind → String
   | .statusLine => "statusLine" | .version => "version" | .statusCode => "statusCode" | .obsFold => "obsFold"
   | .noColon => "noColon" | .dupCL => "dupCL" | .connect => "connect" | .clAndTe => "clAndTe" | .badCL => "badCL"
-  | .clList => "clList" | .clTooBig => "clTooBig" | .chunk => "chunk" | .cap => "cap"
+  | .clList => "clList" | .clTooBig => "clTooBig" | .chunk => "chunk" | .cap => "cap" | .overflow => "overflow"
+
+def showFail : Fail → String
+  | .timeout => "timeout" | .shuttingDown => "shuttingDown" | .closedEarly => "closedEarly"
+
+/-- one scripted `receiveSync` result: `d:<hex>` data, `c` peer closed, `t` timeout, `o` overflow, `s` shutting down,
+`e` any other error -/
+def parseRecv (t : String) : Option Recv :=
+  if t = "c" then some .peerClosed else if t = "t" then some .timeout else if t = "o" then some .overflow
+  else if t = "s" then some .shuttingDown else if t = "e" then some .otherError
+  else if t.startsWith "d:" then (ofHex (t.drop 2).toString).map .data else none
+
+def parseScript : List String → Option (List Recv)
+  | [] => some []
+  | t :: ts => match parseRecv t, parseScript ts with
+    | some r, some rs => some (r :: rs)
+    | _, _ => none
 
 def showMode : Mode → String
   | .noBody => "noBody" | .contentLength => "contentLength" | .chunked => "chunked" | .closeDelimited => "closeDelimited"
 
 def showResp (r : Resp) : String :=
   s!"{r.status} {toHex r.version} {toHex r.text} {showHeaders r.headers} {digest r.body}"
+
+def showExec : LoopOut × Bool → String
+  | (.response r _, closed) => s!"response {showResp r} closed={bit closed}"
+  | (.framingError k, closed) => s!"error {showKind k} closed={bit closed}"
+  | (.failed f, closed) => s!"fail {showFail f} closed={bit closed}"
+  | (.more, _) => "stuck"
 
 def showSt (s : St) : String :=
   if s.headersDone then
@@ -71,7 +93,7 @@ def clStep (c : Cl) (r : Recv) : Cl × String :=
   | (st', .more) => ({ c with st := st' }, s!"more {showSt st'}")
   | (st', .response resp ev) => ({ c with st := st', done := true }, s!"response {showResp resp} evict={bit ev}")
   | (st', .framingError k) => ({ c with st := st', done := true }, s!"error {showKind k}")
-  | (st', .closedEarly) => ({ c with st := st', done := true }, "closedEarly")
+  | (st', .failed f) => ({ c with st := st', done := true }, showFail f)
 
 def step (st : St) : List String → St × String
   | ["cl", "reset", m, cap] =>
@@ -83,6 +105,10 @@ def step (st : St) : List String → St × String
     | some d => let (c, o) := clStep st.cl (.data d); ({ st with cl := c }, o)
     | none => (st, "bad-op")
   | ["cl", "close"] => let (c, o) := clStep st.cl .peerClosed; ({ st with cl := c }, o)
+  | "xr" :: m :: maxResp :: jsonMax :: reuse :: script =>
+    match ofHex m, maxResp.toNat?, jsonMax.toNat?, parseBit reuse, parseScript script with
+    | some m, some a, some b, some ru, some sc => (st, showExec (executeReceive m a b ru sc))
+    | _, _, _, _, _ => (st, "bad-op")
   | ["pcl", hx] =>
     match ofHex hx with
     | some d => (st, match parseContentLength d with | .ok n => s!"ok {n}" | .error k => s!"error {showKind k}")
